@@ -28,7 +28,13 @@ def analyse(pid, repo, tier, seed=0):
     run.extra['explanation'] = getattr(mod, 'EXPLANATION', '')
     run.trusted = list(getattr(mod, 'TRUSTED', []))
     run.assumptions = list(getattr(mod, 'ASSUMPTIONS', []))
-    mod.run(run)
+    try:
+        mod.run(run)
+    except AnalysisError as e:
+        run.errors.append(str(e))
+    except Exception:
+        # a rule crashed on code it did not expect (typically after an earlier clause lost its anchors)
+        run.errors.append('internal error: ' + traceback.format_exc()[-400:])
     return run
 
 
